@@ -1,5 +1,8 @@
-(* C16 — non-vacuity of the discipline theorem and the abstract form of finding F9
-   (the unlocked read in openapi.IsNamespaceScoped). *)
+(* C16 — non-vacuity of the discipline theorem; the call sequences of the current kyaml/openapi code in the
+   action model: default-schema builds are race free under every schedule (after the repair of the unlocked
+   read in IsNamespaceScoped, /repo db2770f); the remaining undisciplined pattern (a build naming a built-in
+   version re-arms initSchema, whose second run races with the unlocked reads that follow initSchema()) has a
+   racy schedule. *)
 From KV Require Import Base.Prelude Glob.Conc Glob.ConcProofs.
 From Coq Require Import Relations.Relation_Operators Relations.Operators_Properties Lia.
 
@@ -25,13 +28,19 @@ Definition set_schema_call : thread := [IAcq MW L; IRd ver; IWr ver; IRel MW L].
 Definition schema_for_call : thread := (init_schema_call ++ [IRd bt])%list.
 (* isInitSchemaNeededForNamespaceScopeCheck: lock; reads; unlock *)
 Definition is_init_needed_call : thread := [IAcq MW L; IRd ver; IRel MW L].
-(* IsNamespaceScoped on a kind outside the precomputed table, default schema: no initSchema, unlocked map read *)
-Definition is_ns_scoped_call : thread := (is_init_needed_call ++ [IRd ns])%list.
-(* the same with the read under the read lock (the repair suggested in DESIGN §7) *)
-Definition is_ns_scoped_fixed : thread := (is_init_needed_call ++ [IAcq MR L; IRd ns; IRel MR L])%list.
+(* IsNamespaceScoped on a kind outside the precomputed table, default schema: no initSchema; the map read is
+   made under the read lock (openapi.go, after db2770f) *)
+Definition is_ns_scoped_call : thread := (is_init_needed_call ++ [IAcq MR L; IRd ns; IRel MR L])%list.
+(* the call sequence before the repair: unlocked map read (kept as the regression example) *)
+Definition is_ns_scoped_unlocked : thread := (is_init_needed_call ++ [IRd ns])%list.
 
-Definition build_a : thread := (set_schema_call ++ is_ns_scoped_fixed ++ schema_for_call)%list.
-Definition build_f9 : thread := (set_schema_call ++ is_ns_scoped_call ++ schema_for_call)%list.
+(* a default-schema build: SetSchema(reset); IsNamespaceScoped; SchemaForResourceType *)
+Definition build_a : thread := (set_schema_call ++ is_ns_scoped_call ++ schema_for_call)%list.
+Definition build_f9 : thread := (set_schema_call ++ is_ns_scoped_unlocked ++ schema_for_call)%list.
+
+(* the second run of initSchema's body after SetSchema cleared schemaInit (explicit built-in version): the once
+   object has already finished, so these are plain writes under the lock *)
+Definition reinit_call : thread := [IAcq MW L; IWr ns; IWr bt; IRel MW L].
 
 (* the hypotheses of the theorem are met by a non-trivial program ... *)
 Example disciplined_build_ok : thread_ok Dk build_a = true.
@@ -60,36 +69,43 @@ Proof.
   apply discipline_sound with (D := Dk). intros th Hin. apply repeat_spec in Hin. subst. apply disciplined_build_ok.
 Qed.
 
-(* the current code: the static check rejects IsNamespaceScoped ... *)
+(* regression example: the static check rejects the unlocked read that IsNamespaceScoped used to make ... *)
 Example f9_rejected : thread_ok Dk build_f9 = false.
 Proof. vm_compute. reflexivity. Qed.
 
-(* ... and rightly so: two such builds have a schedule with a race on the namespaceability map *)
-Definition f9_trace : trace :=
-  [ (1, EAcq MW L); (1, ERd ver); (1, ERel MW L);          (* build 1: isInitSchemaNeeded... returns false *)
-    (0, EAcq MW L); (0, EOBegin O); (0, ERd ns); (0, EWr ns);   (* build 0: initSchema -> findNamespaceability *)
-    (1, ERd ns) ].                                          (* build 1: unlocked map read *)
+(* ... and the re-run of initSchema's body *)
+Example reinit_rejected : thread_ok Dk reinit_call = false.
+Proof. vm_compute. reflexivity. Qed.
 
 Lemma hb_first tr i j : hb tr i j -> exists k, hb1 tr i k.
 Proof.
   intros H. apply clos_trans_t1n in H. inversion H; subst; eauto.
 Qed.
 
-Example f9_race :
-  exists tr, schedule_of [init_schema_call; is_ns_scoped_call] tr /\ race tr.
+(* the remaining undisciplined pattern: build 0 has run SchemaForResourceType up to (not including) its unlocked
+   map read; build 1 named a built-in version, so its initSchema parses again and writes the by-type index under the
+   lock; build 0 then reads the index without any lock: unordered *)
+Definition reinit_trace : trace :=
+  [ (0, EAcq MW L); (0, EOBegin O); (0, ERd ns); (0, EWr ns); (0, EWr bt); (0, EOEnd O); (0, ERel MW L);
+    (1, EAcq MW L); (1, EWr ns); (1, EWr bt);
+    (0, ERd bt) ].
+
+Example reinit_race :
+  exists tr, schedule_of [schema_for_call; reinit_call] tr /\ race tr.
 Proof.
-  exists f9_trace. split.
-  - unfold schedule_of, start, is_ns_scoped_call, is_init_needed_call, init_schema_call, f9_trace. simpl.
-    exec_one 1. exec_one 1. exec_one 1. exec_one 0. exec_one 0. exec_one 0. exec_one 0. exec_one 1. apply exec_nil.
-  - exists 6, 7, 0, 1, (EWr ns), (ERd ns), ns, true, false.
+  exists reinit_trace. split.
+  - unfold schedule_of, start, schema_for_call, init_schema_call, reinit_call, reinit_trace. simpl.
+    exec_one 0. exec_one 0. exec_one 0. exec_one 0. exec_one 0. exec_one 0. exec_one 0.
+    exec_one 1. exec_one 1. exec_one 1. exec_one 0. apply exec_nil.
+  - exists 9, 10, 1, 0, (EWr bt), (ERd bt), bt, true, false.
     repeat split; try reflexivity; try lia; auto.
     intros H. apply hb_first in H. destruct H as [k H].
     inversion H; subst.
-    + (* program order: no later event of thread 0 *)
+    + (* program order: thread 1 has no later event *)
       simpl in H1. inversion H1; subst.
-      assert (k = 7 \/ 8 <= k) by lia. destruct H3 as [->|H3].
+      assert (k = 10 \/ 11 <= k) by lia. destruct H3 as [->|H3].
       * simpl in H2. inversion H2.
-      * assert (nth_error f9_trace k = None) by (apply nth_error_None; simpl; lia).
+      * assert (nth_error reinit_trace k = None) by (apply nth_error_None; simpl; lia).
         congruence.
     + simpl in H1. inversion H1.
     + simpl in H1. inversion H1.
